@@ -279,13 +279,17 @@ def _inv(q, v):
 
 
 def critical_values(spec):
-    """col -> sorted list of critical finite values (edges, midpoints, thresholds, centres, +-k ulps, mid-bin)."""
-    out = {c: set() for c in NUMCOLS}
+    """col -> list of per-node value lists (edges, midpoints, thresholds, centres, +-k ulps, mid-bin, far outside).
+
+    Values are kept per binning node so that a row can be aimed at one node's own edges; the edge values
+    themselves are listed three times so that sampling favours them over their ulp-neighbours.
+    """
+    out = {c: [] for c in NUMCOLS}
     for _, s in walk_spec(spec):
         q = s.get("q")
         if not q or q.get("t") not in ("num", "gt") or q["col"] not in out:
             continue
-        crit = []
+        crit, other = [], []
         k = s["k"]
         if q["t"] == "gt":
             crit = [q["thr"]]
@@ -295,42 +299,46 @@ def critical_values(spec):
             for i in range(n + 1):
                 crit.append((hi - lo) * i / n + lo)
                 crit.append(lo + i * ((hi - lo) / n))
-            crit += [lo + (i + 0.5) * ((hi - lo) / n) for i in range(min(n, 3))]
-            crit += [lo - (hi - lo), hi + (hi - lo)]
+            other += [lo + (i + 0.5) * ((hi - lo) / n) for i in range(min(n, 3))]
+            other += [lo - (hi - lo), hi + (hi - lo)]
         elif k == "SparselyBin":
             bw, o = s["binWidth"], s["origin"]
             for i in (-3, -2, -1, 0, 1, 2, 3, 10):
                 crit.append(i * bw + o)
-            crit += [o + 0.5 * bw, o - 1.5 * bw, o + 1e9 * bw]
+            other += [o + 0.5 * bw, o - 1.5 * bw, o + 1e9 * bw]
         elif k == "CentrallyBin":
             cs = sorted(s["centers"])
-            crit += cs
             crit += [(a + b) / 2.0 for a, b in zip(cs, cs[1:])]
-            crit += [cs[0] - 1.0, cs[-1] + 1.0]
+            other += cs
+            other += [cs[0] - 1.0, cs[-1] + 1.0]
         elif k == "IrregularlyBin":
             crit += list(s["edges"])
-            crit += [(a + b) / 2.0 for a, b in zip(s["edges"], s["edges"][1:])]
+            other += [(a + b) / 2.0 for a, b in zip(s["edges"], s["edges"][1:])]
         elif k == "Stack":
             crit += list(s["thresholds"])
-        vals = set()
+        else:
+            continue
+        vals = []
         for v in crit:
             x = _inv(q, v)
-            if not math.isfinite(x):
-                continue
-            vals.add(x)
-            if k in BIN_KINDS or s["q"]["t"] == "gt":
-                for d in (-2, -1, 1, 2, 3, -3):
-                    vals.add(ulps(x, d))
-        out[q["col"]] |= vals
-    return {c: sorted(v) for c, v in out.items()}
+            if math.isfinite(x):
+                vals += [x, x, x]
+                vals += [ulps(x, d) for d in (-1, 1, -2, 2, 3, -3)]
+        for v in other:
+            x = _inv(q, v)
+            if math.isfinite(x):
+                vals.append(x)
+        if vals:
+            out[q["col"]].append(vals)
+    return out
 
 
 @st.composite
-def column_values(draw, crit, exactish=True):
-    """One numeric cell."""
+def column_values(draw, crit, exactish=True, focus=False):
+    """One numeric cell (focus: aim at the critical values of the binning nodes)."""
     r = draw(st.integers(0, 19))
-    if crit and r < 9:
-        return draw(st.sampled_from(crit))
+    if crit and r < (17 if focus else 9):
+        return draw(st.sampled_from(draw(st.sampled_from(crit))))
     if r < 15:
         return draw(st.sampled_from(MODERATE))
     if r < 17 and not exactish:
@@ -346,8 +354,8 @@ W_INEXACT = (0.1, 1.0 / 3.0, 0.7, 1.0, 2.5)
 
 
 @st.composite
-def rows(draw, crit, exactish=True, cats=True, none_cats=True):
-    row = {c: draw(column_values(crit.get(c), exactish)) for c in NUMCOLS}
+def rows(draw, crit, exactish=True, cats=True, none_cats=True, focus=False):
+    row = {c: draw(column_values(crit.get(c), exactish, focus)) for c in NUMCOLS}
     row["w"] = draw(st.sampled_from(SEL_EXACT if exactish else SEL_EXACT + (0.1, 0.3)))
     if cats:
         pool = CAT_VALUES + ((None, NAN) if none_cats else ())
@@ -366,15 +374,41 @@ def weights(draw, exactish=True, nonpositive=True):
 
 
 @st.composite
-def streams(draw, spec, max_rows=30, exact_bias=True, nonpositive=True, none_cats=True):
+def streams(draw, spec, max_rows=30, exact_bias=True, nonpositive=True, none_cats=True, focus=False):
     """(list of (row, weight), exactish flag)."""
     crit = critical_values(spec)
     exactish = draw(st.integers(0, 9)) < 7 if exact_bias else False
     n = draw(st.integers(0, max_rows))
     out = []
     for _ in range(n):
-        out.append((draw(rows(crit, exactish, none_cats=none_cats)), draw(weights(exactish, nonpositive))))
+        out.append((draw(rows(crit, exactish, none_cats=none_cats, focus=focus)), draw(weights(exactish, nonpositive))))
     return out, exactish
+
+
+@st.composite
+def edge_focus_specs(draw, o=None):
+    """A single binning node on column x (any configuration family) over a Count or a simple leaf, optionally
+    under a Select or inside a Label: the shape in which edge routing is exercised most densely."""
+    o = o or TreeOpts()
+    oo = TreeOpts(max_depth=2, kinds=BIN_KINDS + ("Count", "Count", "Sum", "Average", "Minimize"), max_bins=o.max_bins,
+                  bag_ranges=o.bag_ranges, flavours=o.flavours, affine=False, cat_cols=o.cat_cols, flows=False)
+    kind = draw(st.sampled_from([k for k in BIN_KINDS if k in o.kinds] or list(BIN_KINDS)))
+    spec = draw(tree_specs(oo, 2, (kind,)))
+    spec["q"] = {"t": "num", "col": "x", "fl": draw(st.sampled_from(o.flavours))}
+    wrap = draw(st.integers(0, 5))
+    if wrap == 0 and "Select" in o.kinds:
+        return {"k": "Select", "q": {"t": "num", "col": "w", "fl": draw(st.sampled_from(o.flavours))}, "cut": spec}
+    if wrap == 1 and "Label" in o.kinds:
+        return {"k": "Label", "pairs": {"a": spec}}
+    return spec
+
+
+@st.composite
+def specs_and_focus(draw, o=None, edge_share=3):
+    """(spec, focus): one case in `edge_share` is an edge-focused single binning node."""
+    if draw(st.integers(0, edge_share - 1)) == 0:
+        return draw(edge_focus_specs(o)), True
+    return draw(tree_specs(o)), False
 
 
 @st.composite
@@ -392,3 +426,25 @@ def split(seq, pts):
         prev = p
     out.append(seq[prev:])
     return out
+
+
+# ---------------------------------------------------------------------------------------------------------
+# reachable states: a recipe is plain data, realised by states.realize()
+
+
+@st.composite
+def recipes(draw, spec, max_rows=12, reload_ok=True, scale_ok=True, focus=False):
+    """How to reach a state of `spec`: fills, an optional merge with a second filled tree, an optional scaling,
+    an optional copy(), and optionally a JSON reload (immutable form)."""
+    stream, exactish = draw(streams(spec, max_rows=max_rows, focus=focus))
+    rec = {"fills": [[r, w] for r, w in stream], "exactish": exactish}
+    if draw(st.integers(0, 3)) == 0:
+        other, _ = draw(streams(spec, max_rows=max(2, max_rows // 2), focus=focus))
+        rec["merge"] = [[r, w] for r, w in other]
+    if scale_ok and draw(st.integers(0, 5)) == 0:
+        rec["scale"] = draw(st.sampled_from((2.0, 0.5, 3.0)))
+    if draw(st.integers(0, 5)) == 0:
+        rec["copy"] = True
+    if reload_ok and draw(st.integers(0, 4)) == 0:
+        rec["reload"] = True
+    return rec
